@@ -64,6 +64,24 @@ def frac_of(x):
     return f.numerator, f.denominator
 
 
+DRIVER = None          # set by run_check: the model side evaluates the translated cutoff formula in binary64
+_EFF_CACHE = {}
+
+
+def effective_fraction(N, frac, driver=None):
+    """The implementation evaluates `frac*(N//2) - 1` in binary64 (e.g. N=49, frac=2/3 gives 14.999999999999998,
+    so the retained band is K=14, one less than the rational 15).  The model's mask takes a rational fraction;
+    it is driven with (K+1, N//2), the rational whose cutoff is the float-derived K.  K itself comes from the
+    driver executing the *translated* cutoff arithmetic (Gen.Misc.dealias_cutoff) on IEEE doubles."""
+    d = driver or DRIVER
+    key = (N, float(frac))
+    if key not in _EFF_CACHE:
+        c = d.ask(f"cutoff {N} {U.ftok(frac)}")[0]
+        K = int(np.floor(c)) if c >= 0 else -1
+        _EFF_CACHE[key] = (K + 1, max(N // 2, 1))
+    return _EFF_CACHE[key]
+
+
 # ---- documented conversions (C13) -------------------------------------------
 def normalized_from_difficulty(gammas, D, N):
     return [g if j == 0 else g / (N ** j * 2 ** (j - 1) * D) for j, g in enumerate(gammas)]
@@ -83,7 +101,7 @@ class Spec:
         return self.cls(self.D, self.L, self.N, self.dt, **self.kwargs)
 
     def cfg_tokens(self):
-        fp, fq = (0, 0) if self.frac is None else frac_of(self.frac)
+        fp, fq = (0, 0) if self.frac is None else effective_fraction(self.N, self.frac)
         s = 2 * np.pi / self.L
         return f"{self.D} {self.N} {U.ftok(s)} {fp} {fq}"
 
